@@ -171,3 +171,39 @@ def run(cx):
     f, r = ret1('<impl points::TwistPoint>::point_neg_pi2')
     if f:
         cx.add('K-SM9-FROB', 'point_neg_pi2/shape', bool(r) and r[0].startswith('TwistPoint::TwistPoint{$self.x, fp_neg($self.y), fp_mul_fp($self.z, arr:'), '-pi^2(Q) = (X, -Y, alpha^2 * Z)', f.loc())
+
+
+_run0 = run
+
+
+def run(cx):
+    from ..builder import branch_sequences
+    _run0(cx)
+    F = cx.F
+    # GT / field-tower serialisation order (most significant component first), G1 point encoding
+    for q, want in (('gm_sm9::fields::fp12::<impl fields::FieldElement for fields::fp12::Fp12>::to_bytes_be', ['BE($self.c2)', 'BE($self.c1)', 'BE($self.c0)']),
+                    ('gm_sm9::fields::fp4::<impl fields::FieldElement for fields::fp4::Fp4>::to_bytes_be', ['BE($self.c1)', 'BE($self.c0)']),
+                    ('gm_sm9::fields::fp2::<impl fields::FieldElement for fields::fp2::Fp2>::to_bytes_be', ['BE($self.c1)', 'BE($self.c0)']),
+                    ('gm_sm9::points::<impl points::Point>::to_bytes_be', ['byte(4)', 'BE(affx($self))', 'BE(affy($self))'])):
+        fn = cx.fn(q, 'F-GT-ENC')
+        if fn is None:
+            continue
+        P = Prov(fn, F); cn = Canon(fn, P)
+        got = None
+        for b, i, st in fn.stmts():
+            if st['k'] == 'assign' and st['lhs']['l'] == 0 and not st['lhs']['p'] and st['rv']['k'] == 'use':
+                ch = branch_sequences(fn, P, st['rv']['op'], b, i, cn)
+                if ch and len(ch) == 1:
+                    got = ch[0][1]
+        FR.check_seq(cx, 'F-GT-ENC', fn.short, fn, got, want, 'serialisation order (highest tower component first; 04 || x || y for G1 points)')
+    f = cx.fn("gm_sm9::fields::fp::<impl fields::FieldElement for [u64; 4]>::to_bytes_be", 'F-GT-ENC')
+    if f is not None:
+        r = [v for _, v in I.returns(f, F, True)]
+        cx.add('F-GT-ENC', f.short, r == ['BE(plain($self))'], 'Fp elements are serialised as the big-endian bytes of the value taken out of Montgomery form: %s' % r, f.loc())
+    # affine conversion used by the pairing (see C13 I-AFFINE): the point at infinity must normalise to (0, 0, 1)
+    fn = cx.fn('gm_sm9::points::<impl points::Point>::to_affine_point', 'I-AFFINE')
+    if fn is not None:
+        r = sorted(v for _, v in I.returns(fn, F, True))
+        want = sorted(['Point::Point{$self.x, $self.y, one()}',
+                       'Point::Point{fp_mul($self.x, fp_sqr(fp_inv($self.z))), fp_mul(fp_mul($self.y, fp_inv($self.z)), fp_sqr(fp_inv($self.z))), one()}'])
+        cx.add('I-AFFINE', fn.short, r == want, 'the pairing normalises its G1 argument with (X/Z^2, Y/Z^3, 1) / (X, Y, 1); no other exit (e(O, Q) = 1 relies on O -> (0, 0, 1))', fn.loc())
